@@ -10,10 +10,6 @@ Emit == PrintT(<<"REPLAY", ToJson([def |-> def.id, line |-> line, env |-> env, o
 \* completion configs print, per viable state, every partial item with the bounds the specification puts on the candidates
 ActiveCmds == LET t == Cur(st).lvl.tail IN
               IF t.kind = "cmd" THEN [k \in DOMAIN t.cmds |-> [n |-> t.cmds[k].names[1], w |-> CmdWords(t.cmds[k])]] ELSE <<>>
-\* the complete name of an option an enclosing level declares, typed to the right of a subcommand name, is that
-\* level's option (outside the quantifier like every such line), not a partial item of the active level
-ForeignLong(s, cs) == \E k \in 1..(Len(s.frames) - 1) : \E j \in DOMAIN s.frames[k].lvl.named :
-                         \E i \in DOMAIN s.frames[k].lvl.named[j].lchars : s.frames[k].lvl.named[j].lchars[i] = cs
 CEmit == Viable(st) => PrintT(<<"REPLAY", ToJson([def |-> def.id, line |-> line, env |-> env, outside |-> FALSE, acmds |-> ActiveCmds,
             comps |-> {[p |-> PartialText(p), must |-> MustOffer(st, p), may |-> MayOffer(st, p), pending |-> (st.pending # "")]
                        : p \in {p \in Partials(def) : ~(p.k = "short" /\ Foreign(st, p.s)) /\ ~(p.k = "long" /\ ForeignLong(st, p.cs))}}])>>)
